@@ -15,9 +15,11 @@ import (
 	"bufio"
 	"bytes"
 	"context"
+	"encoding/binary"
 	"encoding/hex"
 	"encoding/json"
 	"fmt"
+	"hash/crc32"
 	"math/rand"
 	"os"
 	"os/exec"
@@ -33,7 +35,16 @@ import (
 func init() { RegisterSub("C20", "codecs", RunC20) }
 
 var c20Codecs = []string{"snappy", "gzip", "brotli", "zstd", "lz4", "uncompressed"}
-var c20DstKinds = []string{"nil", "zero", "smallcap", "smalllen", "exactcap", "exactlen", "exactm1", "exactp1", "large", "largelen", "prev"}
+
+// dst shapes for Decode (sizes relative to the decoded length and to len(src)) ...
+var c20DstKinds = []string{"nil", "zero", "smallcap", "smalllen", "exactcap", "exactlen", "exactm1", "exactp1", "large", "largelen",
+	"srccap", "srclen", "srcm1", "srcp1", "srcp15", "srchalf", "prev"}
+
+// ... and for Encode: additionally around the worst-case bounds of the block formats and around
+// the size of the output itself ("prev" stays last: some generators exclude it)
+var c20EncDstKinds = []string{"nil", "zero", "smallcap", "smalllen", "exactcap", "exactlen", "exactm1", "exactp1", "large", "largelen",
+	"srccap", "srclen", "srcm1", "srcp1", "srcp15", "srchalf", "lz4boundm1", "lz4bound", "snapboundm1", "snapbound",
+	"outm1", "outcap", "outp1", "prev"}
 var c20InputKinds = []string{"rand", "zero", "text", "alpha4", "runs"}
 var c20BadKinds = []string{"truncate", "trailing", "flip", "garbage", "empty"}
 
@@ -57,7 +68,7 @@ func c20RandInput(ctx *core.Ctx, r *rand.Rand, lens []int) c20Input {
 
 func c20RandOp(ctx *core.Ctx, r *rand.Rand, lens []int, badProb int) c20Op {
 	op := c20Op{K: "rt", In: c20RandInput(ctx, r, lens),
-		EDst: c20DstKinds[r.Intn(len(c20DstKinds))], DDst: c20DstKinds[r.Intn(len(c20DstKinds))]}
+		EDst: c20EncDstKinds[r.Intn(len(c20EncDstKinds))], DDst: c20DstKinds[r.Intn(len(c20DstKinds))]}
 	if r.Intn(100) < badProb {
 		op.K = "bad"
 		op.Bad = c20Corrupt{Kind: c20BadKinds[r.Intn(len(c20BadKinds))], Pos: r.Int63(), N: 1 + r.Intn(8), Seed: r.Int63n(1 << 40)}
@@ -589,6 +600,26 @@ func RunC20(ctx *core.Ctx) {
 			}
 		}
 	}
+	// (e) capacity sweep: every codec x boundary lengths x {incompressible, compressible} x EVERY
+	// Encode dst shape (capacities around len(src), around the worst-case bounds of the block
+	// formats, around the size of the output itself) and, rotating, every Decode dst shape: the
+	// region between "dst can hold the input" and "dst can hold the output" is where an encoder
+	// that trusts the caller's buffer gives up silently. One fresh codec value per (length, kind).
+	nHangDirected := len(scs) // the scenarios before this point carry short hang limits: own batches
+	sweepLens := []int{0, 1, 15, 16, 17, 100, 254, 255, 256, 4096, 65536}
+	for _, codec := range c20Codecs {
+		for li, n := range sweepLens {
+			for ki, kind := range []string{"rand", "text"} {
+				var ops []c20Op
+				for ei, ed := range c20EncDstKinds[:len(c20EncDstKinds)-1] {
+					ops = append(ops, c20Op{K: "rt", In: c20Input{Kind: kind, Len: n, Seed: int64(1000 + li*13 + ei)},
+						EDst: ed, DDst: c20DstKinds[(ei+li+ki)%(len(c20DstKinds)-1)]})
+				}
+				ctx.Hist("c20.capacity-sweep", codec+"/"+kind)
+				add(c20Scenario{Codec: codec, Level: li + ki, Ops: ops, TimeoutMs: 60000}) // capacities, not hangs, are the subject
+			}
+		}
+	}
 	nDirected := len(scs)
 	// (a) fresh codec value x every boundary length x input kind: single round trips
 	for _, codec := range c20Codecs {
@@ -596,7 +627,7 @@ func RunC20(ctx *core.Ctx) {
 			var ops []c20Op
 			for ki, k := range c20InputKinds {
 				ops = append(ops, c20Op{K: "rt", In: c20Input{Kind: k, Len: n, Seed: int64(li*7 + ki)},
-					EDst: c20DstKinds[(li+ki)%len(c20DstKinds)], DDst: c20DstKinds[(li+2*ki+3)%len(c20DstKinds)]})
+					EDst: c20EncDstKinds[(li+ki)%len(c20EncDstKinds)], DDst: c20DstKinds[(li+2*ki+3)%len(c20DstKinds)]})
 			}
 			add(c20Scenario{Codec: codec, Level: li, Ops: ops})
 		}
@@ -708,7 +739,7 @@ func RunC20(ctx *core.Ctx) {
 		id++
 		jobs <- large[i : i+1]
 	}
-	for _, part := range [][]c20Scenario{scs[:nDirected], rest} {
+	for _, part := range [][]c20Scenario{scs[:nHangDirected], scs[nHangDirected:nDirected], rest} {
 		for i := 0; i < len(part); i += batch {
 			j := i + batch
 			if j > len(part) {
@@ -721,7 +752,7 @@ func RunC20(ctx *core.Ctx) {
 	rp := &c20Reporter{ctx: ctx, perPrelim: map[string]int{}, memMB: memMB, opTimeout: opTimeout}
 	var lz4L2 []c20Lz4Obs
 	var blockObs []c20BlockObs
-	nLargeObs := 0
+	nLargeObs, nBigGzip := 0, 0
 	var mu sync.Mutex
 	var wg sync.WaitGroup
 	nw := runtime.GOMAXPROCS(0)
@@ -755,6 +786,14 @@ func RunC20(ctx *core.Ctx) {
 					if o.line != nil {
 						for i, res := range o.line.Results {
 							if res.Enc != "" {
+								if o.sc.Codec == "gzip" && o.sc.Ops[i].In.Len > 1<<17 {
+									// a small gzip stream may stand for megabytes: the Lean reader takes
+									// ~0.5 s per MiB of output, so only a sample of those
+									if nBigGzip >= 24 {
+										continue
+									}
+									nBigGzip++
+								}
 								if len(res.Enc) > 8192 {
 									if nLargeObs >= 1500 { // bound the memory held for the spec-decoder pass
 										continue
@@ -893,6 +932,37 @@ func c20Lz4L2(ctx *core.Ctx, obs []c20Lz4Obs) {
 		ctx.Fail("L2", "driver-error", err.Error(), nil)
 		return
 	}
+	// Encode side: the slice returned by lz4.Codec.Encode is dst[:n] of the buffer handed to
+	// CompressBlock; the mirror (PqModel/Lz4Encode.lean) says that buffer has
+	// max(cap(dst), CompressBlockBound(len(src))) bytes — never less than the bound
+	var ereqs []string
+	var eobs []c20Lz4Obs
+	for _, o := range obs {
+		if o.res.EncDstCap > 0 && o.res.EncOutCap > 0 {
+			ereqs = append(ereqs, fmt.Sprintf("codec.lz4encbuf %d %d", o.res.EncDstCap-1, o.sc.Ops[o.op].In.Len))
+			eobs = append(eobs, o)
+		}
+	}
+	if eans, err := d.AskMany(ereqs); err != nil {
+		ctx.Fail("L2", "driver-error", err.Error(), nil)
+	} else {
+		for i, a := range eans {
+			o := eobs[i]
+			n := o.sc.Ops[o.op].In.Len
+			switch dc := o.res.EncDstCap - 1; {
+			case dc < n:
+				ctx.Hist("c20.lz4.encode-dst", "cap<len(src)")
+			case dc < n+n/255+16:
+				ctx.Hist("c20.lz4.encode-dst", "len(src)<=cap<bound")
+			default:
+				ctx.Hist("c20.lz4.encode-dst", "cap>=bound")
+			}
+			if want := fmt.Sprintf("ok %d", o.res.EncOutCap-1); a != want {
+				ctx.Fail("L2", "lz4-encode-buffer", "lz4.Codec.Encode handed CompressBlock another buffer size than the Lean mirror (max(cap(dst), CompressBlockBound(len(src))))",
+					map[string]any{"request": ereqs[i], "model": a, "impl": want, "op": o.sc.Ops[o.op]})
+			}
+		}
+	}
 	for i, a := range ans {
 		o := obs[i]
 		want := fmt.Sprintf("ok %d", o.res.OutCap)
@@ -943,14 +1013,16 @@ type c20BlockObs struct {
 	enc   string
 }
 
-// c20BlockFormats: (1) everything the REAL snappy / lz4 encoders produced in this run must be
-// decoded to the original input by the Lean spec decoders (`codec.snappydec`, `codec.lz4dec`,
-// PqModel/Spec/BlockCodecs.lean) — an independent decoder agreeing with the third-party encoder on
-// every sample; (2) streams made by the Lean reference encoders (proved decodable:
-// snappy_dec_enc, lz4_dec_enc) must be decoded to the same bytes by the REAL decoders (in a worker).
+// c20BlockFormats: (1) everything the REAL snappy / lz4 / gzip encoders produced in this run must
+// be decoded to the original input by the Lean spec decoders (`codec.snappydec`, `codec.lz4dec`,
+// PqModel/Spec/BlockCodecs.lean; `gzip.decode`, PqModel/Spec/Inflate.lean: RFC 1951 inflate +
+// RFC 1952 member with CRC-32 and ISIZE) — an independent decoder agreeing with the third-party
+// encoder on every sample; (2) streams made by the Lean reference encoders (proved decodable:
+// snappy_dec_enc, lz4_dec_enc, gunzip_gzipStored) must be decoded to the same bytes by the REAL
+// decoders (in a worker).
 func c20BlockFormats(ctx *core.Ctx, obs []c20BlockObs, rp *c20Reporter) {
 	t0 := time.Now()
-	nd := 4
+	nd := 8
 	var wg sync.WaitGroup
 	for w := 0; w < nd; w++ {
 		wg.Add(1)
@@ -960,9 +1032,25 @@ func c20BlockFormats(ctx *core.Ctx, obs []c20BlockObs, rp *c20Reporter) {
 			if d == nil {
 				return
 			}
-			var reqs []string
+			var reqs, btReqs []string
 			var mine []c20BlockObs
 			flush := func() {
+				if bt, err := d.AskMany(btReqs); err == nil && len(btReqs) > 0 {
+					for _, a := range bt {
+						seen := map[string]bool{}
+						for _, t := range strings.Split(strings.TrimPrefix(a, "ok "), ",") {
+							seen[map[string]string{"0": "stored", "1": "fixed-huffman", "2": "dynamic-huffman"}[t]] = true
+						}
+						delete(seen, "")
+						for t := range seen {
+							ctx.Hist("c20.gzip-blocks-read-by-spec", t)
+						}
+						if len(seen) > 1 {
+							ctx.Hist("c20.gzip-blocks-read-by-spec", "mixed-types-in-one-stream")
+						}
+					}
+				}
+				btReqs = btReqs[:0]
 				ans, err := d.AskMany(reqs)
 				if err != nil {
 					ctx.Fail("L2", "driver-error", err.Error(), nil)
@@ -976,7 +1064,7 @@ func c20BlockFormats(ctx *core.Ctx, obs []c20BlockObs, rp *c20Reporter) {
 							a = a[:200] + "…"
 						}
 						ctx.Fail("L1", o.codec+"-spec-decoder-disagrees",
-							"the Lean spec decoder of the "+o.codec+" block format does not read the real encoder's output back to the input",
+							"the Lean spec decoder of the "+o.codec+" format does not read the real encoder's output back to the input",
 							map[string]any{"codec": o.codec, "level": o.level, "input": o.in, "encoded_hex": o.enc, "spec_decoder": a})
 					}
 				}
@@ -985,7 +1073,16 @@ func c20BlockFormats(ctx *core.Ctx, obs []c20BlockObs, rp *c20Reporter) {
 			for i := w; i < len(obs); i += nd {
 				o := obs[i]
 				ctx.Case("specdec "+o.codec+" "+o.in.String()+fmt.Sprint(o.level), o.in.Len >= 2)
-				reqs = append(reqs, "codec."+o.codec+"dec "+core.Hex(mustHex(o.enc)))
+				if o.codec == "gzip" {
+					// RFC 1951 / RFC 1952 reader of PqModel/Spec/Inflate.lean: header, every block
+					// type, CRC-32 and ISIZE
+					reqs = append(reqs, "gzip.decode "+core.Hex(mustHex(o.enc)))
+					if i%3 == 0 { // coverage: which block types did the spec reader walk through
+						btReqs = append(btReqs, "inflate.btypes "+core.Hex(mustHex(o.enc)))
+					}
+				} else {
+					reqs = append(reqs, "codec."+o.codec+"dec "+core.Hex(mustHex(o.enc)))
+				}
 				mine = append(mine, o)
 				if len(reqs) >= 200 {
 					flush()
@@ -1006,12 +1103,24 @@ func c20BlockFormats(ctx *core.Ctx, obs []c20BlockObs, rp *c20Reporter) {
 	var ins []c20Input
 	var codecs []string
 	lens := []int{0, 1, 2, 4, 5, 6, 14, 15, 16, 19, 20, 21, 63, 64, 65, 66, 129, 255, 269, 270, 274, 275, 300, 529, 530, 1000, 4096}
+	// gzip.stored (proved: gunzip (gzipStored x) = x): stored blocks of 65535 bytes, so lengths
+	// around one and two full blocks
+	gzLens := []int{0, 1, 2, 255, 256, 4096, 65534, 65535, 65536, 65537, 131069, 131070, 131071, 140000}
 	for i := 0; i < n; i++ {
 		in := c20Input{Kind: []string{"runs", "zero", "alpha4", "text", "rand"}[r.Intn(5)], Len: lens[r.Intn(len(lens))], Seed: r.Int63n(1 << 40)}
 		codec := []string{"snappy", "lz4"}[i%2]
 		op := "codec." + codec + "enc "
 		if codec == "snappy" && i%4 == 0 {
 			op = "codec.snappyenclit "
+		}
+		if i%10 == 9 {
+			codec, op = "gzip", "gzip.stored "
+			in.Len = gzLens[(i/10)%len(gzLens)]
+		}
+		if i%10 == 4 {
+			// raw DEFLATE from the fixed-Huffman literal encoder (proved: inflate_fixedLiterals_id);
+			// the gzip member around it is made here
+			codec, op = "gzip", "inflate.fixedenc "
 		}
 		reqs = append(reqs, op+core.Hex(in.Bytes()))
 		ins, codecs = append(ins, in), append(codecs, codec)
@@ -1032,10 +1141,17 @@ func c20BlockFormats(ctx *core.Ctx, obs []c20BlockObs, rp *c20Reporter) {
 		if src == "-" {
 			src = ""
 		}
+		if strings.HasPrefix(reqs[i], "inflate.fixedenc ") {
+			x := ins[i].Bytes()
+			m := append([]byte{0x1f, 0x8b, 8, 0, 0, 0, 0, 0, 0, 255}, mustHex(src)...)
+			m = binary.LittleEndian.AppendUint32(m, crc32.ChecksumIEEE(x))
+			m = binary.LittleEndian.AppendUint32(m, uint32(len(x)))
+			src = hex.EncodeToString(m)
+		}
 		k := fmt.Sprintf("%s/%d", codecs[i], i/12)
 		sc := bySc[k]
 		if sc == nil {
-			sc = &c20Scenario{ID: 1000000 + len(order), Codec: codecs[i], Level: i, TimeoutMs: 3000}
+			sc = &c20Scenario{ID: 1000000 + len(order), Codec: codecs[i], Level: i % 30, TimeoutMs: 3000}
 			bySc[k] = sc
 			order = append(order, k)
 		}
@@ -1058,7 +1174,7 @@ func c20BlockFormats(ctx *core.Ctx, obs []c20BlockObs, rp *c20Reporter) {
 			ctx.Fail("L1", o.sc.Codec+"-"+f.Kind, o.sc.Codec+": "+f.Msg, map[string]any{"scenario": o.sc, "op": f.Op})
 		}
 	}
-	fmt.Fprintf(os.Stderr, "[c20] block formats: %d encoder outputs through the spec decoders, %d reference streams through the real decoders, %.1fs\n", len(obs), n, time.Since(t0).Seconds())
+	fmt.Fprintf(os.Stderr, "[c20] formats: %d encoder outputs (snappy, lz4, gzip) through the Lean spec decoders, %d reference streams through the real decoders, %.1fs\n", len(obs), n, time.Since(t0).Seconds())
 }
 
 func mustHex(s string) []byte {
